@@ -450,3 +450,101 @@ def module_twin(src):
     except SyntaxError:
         return None
     return out
+
+
+# ------------------------------------------------------------------------------------------- fifth wave: surface features
+
+def fam_ignore_comment(r):
+    """`# pyrefact: ignore` on one line of a statement group that rules rewrite together"""
+    mark = "  # pyrefact: ignore"
+    k = r.randrange(6)
+    m = [mark if k == i else "" for i in range(6)]
+    v = r.choice(["loop", "dict", "rename", "set"])
+    if v == "loop":
+        return (f"def f(x, y):\n    out = []{m[0]}\n    for i in range(4):{m[1]}\n        out.append(i * i + x){m[2]}\n    total = 0{m[3]}\n"
+                f"    for v in out:{m[4]}\n        total += v{m[5]}\n    return out, total + y\n")
+    if v == "dict":
+        return (f"def f(x, y):\n    d = {{}}{m[0]}\n    d['a'] = x{m[1]}\n    d['b'] = y{m[2]}\n    e = {{'k': 1}}{m[3]}\n    e.update({{'m': x}}){m[4]}\n"
+                f"    return sorted(d.items()), sorted(e.items()){m[5]}\n")
+    if v == "set":
+        return (f"def f(x, y):\n    s = set(){m[0]}\n    for i in range(3):{m[1]}\n        s.add(i + x){m[2]}\n    t = [1, 2]{m[3]}\n    t.append(y){m[4]}\n"
+                f"    return sorted(s), t{m[5]}\n")
+    return (f"def helperFn(a):{m[0]}\n    return a + 1{m[1]}\n\n\ndef f(x, y):\n    someVal = helperFn(x){m[2]}\n    otherVal = helperFn(y){m[3]}\n"
+            f"    return someVal + otherVal{m[4]}\n")
+
+
+def fam_chained_comp_guard(r):
+    """an inner filter that protects the outer condition (or the element expression)"""
+    v = r.randrange(6)
+    n = r.choice(["v", "x", "item"])
+    if v == 0:
+        return f"def f(x, y):\n    data = [0, 1, 2, x, y]\n    return [{n} for {n} in [{n} for {n} in data if {n} != 0] if 20 // {n} > 2]\n"
+    if v == 1:
+        return f"def f(x, y):\n    table = [10, 20, 30]\n    idx = [x, y, 1, 7, -9]\n    return [{n} for {n} in ({n} for {n} in idx if 0 <= {n} < 3) if table[{n}] > 10]\n"
+    if v == 2:
+        return (f"def noisy(v):\n    print('check', v)\n    return v % 2 == 0\n\n\ndef f(x, y):\n    data = [1, 2, 3, x, y]\n"
+                f"    return [{n} for {n} in [{n} for {n} in data if {n} > 1] if noisy({n})]\n")
+    if v == 3:
+        return f"def f(x, y):\n    data = [0, 5, x, y]\n    return sum(100 // {n} for {n} in [{n} for {n} in data if {n}])\n"
+    if v == 4:
+        return f"def f(x, y):\n    data = [0, 1, 2, x, y]\n    return {{{n} for {n} in {{{n} for {n} in data if {n} != 0}} if 20 % {n} == 0}}\n"
+    return f"def f(x, y):\n    data = [[], [1], [x, y]]\n    return [{n}[0] for {n} in [{n} for {n} in data if {n}] if {n}[0] > 0]\n"
+
+
+def fam_missing_import_decorated(r):
+    """a module that uses a well-known module without importing it; what follows the header is a decorated definition"""
+    head = r.choice(["", '"""Module docstring."""\n', "from __future__ import annotations\n", '"""Doc."""\nfrom __future__ import annotations\n', "# comment\n"])
+    v = r.randrange(3)
+    if v == 0:
+        body = "@functools.lru_cache(maxsize=None)\ndef fib(n):\n    return n if n < 2 else fib(n - 1) + fib(n - 2)\n\n\ndef f(x, y):\n    return fib(abs(x) + 3) + y\n"
+    elif v == 1:
+        body = "@dataclasses.dataclass\nclass Point:\n    a: int\n    b: int\n\n\ndef f(x, y):\n    p = Point(x, y)\n    return p.a + p.b\n"
+    else:
+        body = "@functools.wraps(print)\ndef show(*a):\n    return len(a)\n\n\ndef f(x, y):\n    return show(x, y), math.floor(2.5)\n"
+    return head + body
+
+
+def fam_commented_code(r):
+    """commented-out code, also with very long lines"""
+    n = r.choice([10, 80, 300, 600, 5000])
+    long_list = ", ".join(str(i % 10) for i in range(n // 3))
+    block = r.choice([f"# weights = [{long_list}]\n", f"    # vals = [{long_list}]\n    # print(vals)\n", "# import os\n# os.remove('/tmp/x')\n",
+                      f"# {'x' * n}\n", f"# path/{'a' * n}/file.py\n", "# for i in range(3):\n#     print(i)\n"])
+    if block.startswith("    "):
+        return f"def f(x, y):\n    z = x + y\n{block}    return z\n"
+    return f"{block}def f(x, y):\n    return x - y\n"
+
+
+def fam_nonascii(r):
+    """non-ASCII characters in strings, comments and identifiers"""
+    s = r.choice(["é", "ü", "→", "日本語", "😀", "ß", "π"])
+    v = r.randrange(4)
+    if v == 0:
+        return f"def f(x, y):\n    label = '{s}' * 2  # {s}\n    unused = 1\n    return label + str(x + y)\n"
+    if v == 1:
+        return f"# {s}{s} author\nimport os\n\n\ndef f(x, y):\n    if x > 1:\n        return '{s}'\n    else:\n        return '{s}{s}' + str(y)\n"
+    if v == 2:
+        return f"def f(x, y):\n    out = []\n    for ch in '{s}a{s}':\n        out.append(ch)\n    return out, len('{s}'), x, y\n"
+    return f"def f(x, y):\n    größe = x + 1\n    return f'{{größe}} {s} {{y}}'\n"
+
+
+def fam_equal_bounds(r):
+    """range conditions whose bounds coincide or touch"""
+    c = r.randint(-1, 4)
+    e = r.choice([f"x >= {c} and x <= {c}", f"x > {c} or x < {c}", f"x >= {c} and x < {c}", f"x <= {c} or x >= {c}", f"x >= {c} and x <= {c + 1}", f"{c} <= x and x <= {c}",
+                  f"x > {c} and x >= {c}", f"x < {c} or x <= {c}", f"x >= {c} and y >= {c} and x <= {c}"])
+    return f"def f(x, y):\n    if {e}:\n        return 'in'\n    return 'out'\n"
+
+
+FAMILIES5 = [fam_ignore_comment, fam_chained_comp_guard, fam_missing_import_decorated, fam_commented_code, fam_nonascii, fam_equal_bounds]
+
+
+def corpus5(per_family=30):
+    import random
+
+    out = []
+    for fam in FAMILIES5:
+        r = random.Random("5:" + fam.__name__)
+        for _ in range(per_family):
+            out.append((fam(r) + HARNESS, fam.__name__))
+    return out
